@@ -11,6 +11,9 @@
 long qvverif_checks = 0;      /* invariants evaluated */
 long qvverif_mismatches = 0;  /* dE used != E(after) - E(before), stale cache */
 long qvverif_bounds = 0;      /* index outside [0, len_state) */
+double qvverif_maxdev = 0.;   /* largest |dE deviation| / sum|coefficients| */
+#define QVVERIF_DEV(d, scale) do { double qv_r_ = fabs(d) / (scale); \
+    if(qv_r_ > qvverif_maxdev) qvverif_maxdev = qv_r_; } while(0)
 static int qvverif_len_state = 0;
 static double qvverif_scale = 1.;
 static void qvverif_report(const char *what, long a, double x, double y) {
@@ -226,6 +229,7 @@ void single_anneal_quso(
                     len_state, state, h, num_neighbors, neighbors, J, index);
                 state[i] *= -1;
                 qvverif_checks++;
+                QVVERIF_DEV((qv_after - qv_before) - dE, qvverif_scale);
                 if(fabs((qv_after - qv_before) - dE) > 1e-7 * qvverif_scale) {
                     qvverif_mismatches++;
                     qvverif_report("dE used vs E(after)-E(before)", (long)i,
@@ -251,6 +255,7 @@ void single_anneal_quso(
                             num_neighbors, neighbors, J, index);
             for(qv_k=0; qv_k<len_state; qv_k++) {
                 qvverif_checks++;
+                QVVERIF_DEV(qv_fresh[qv_k] - flip_spin_dE[qv_k], qvverif_scale);
                 if(fabs(qv_fresh[qv_k] - flip_spin_dE[qv_k])
                         > 1e-7 * qvverif_scale) {
                     qvverif_mismatches++;
